@@ -23,7 +23,8 @@ SPELL = ['none', 'disp', 'num', 'full', 'star', 'trcl', 'trcl+fill']
 def make(task):
     sd, depth, reuse, sp, inner = task[:5]
     rnd = random.Random(sd)
-    deck, pre = gen.fill_deck(rnd, depth=depth, reuse=reuse, spelling=sp, inner=inner, empty_cell=task[5] if len(task) > 5 else None)
+    deck, pre = gen.fill_deck(rnd, depth=depth, reuse=reuse, spelling=sp, inner=inner, empty_cell=task[5] if len(task) > 5 else None,
+                               mirror=task[6] if len(task) > 6 else False)
     return deck, pre
 
 
